@@ -29,7 +29,7 @@ func init() { commands["idxsim"] = idxsim }
 const (
 	idxNT = 3
 	idxNK = 5
-	idxNV = 3
+	idxNV = 5
 )
 
 var idxTables = [][idxNT]string{
@@ -49,10 +49,32 @@ type idxDrv struct {
 	ready                              [idxNT]bool
 	has                                [idxNT]bool // the index exists (any state)
 	nW, nQ, nDDL, nBuildExisting, nErr int
+	// kind of the index of each table: integer-typed or string-typed, unique or not
+	intv, uniq [idxNT]bool
+	cur        [idxNT][idxNK]int // value position every hash currently has (input generation only)
+	extremes   bool
+	nRange     int
+}
+
+// ordered pools of field values: 64-bit integers incl. the smallest and the largest, and strings
+var idxInts = [idxNV]string{"-9223372036854775808", "-5", "0", "7", "9223372036854775807"}
+var idxStrs = [idxNV]string{"a", "ab", "b", "x", "\xff"}
+
+func (d *idxDrv) valStr(t, v int) string {
+	if d.intv[t-1] {
+		return idxInts[v-1]
+	}
+	return idxStrs[v-1]
 }
 
 func (d *idxDrv) schema(t int, typ node.SchemaChangeType, state common.IndexState) error {
 	hs := common.HsetIndexSchema{Name: "idx_f", IndexField: "f", ValueType: common.StringV, State: state}
+	if d.intv[t-1] {
+		hs.ValueType = common.Int64V
+	}
+	if d.uniq[t-1] {
+		hs.Unique = 1
+	}
 	data, _ := json.Marshal(hs)
 	sc := node.SchemaChange{Type: typ, Table: d.tabs[t-1], SchemaData: data}
 	raw, err := sc.Marshal()
@@ -126,11 +148,20 @@ func (d *idxDrv) drop(t int) {
 }
 
 func (d *idxDrv) write(t, k, v int) {
+	if v > 0 && d.uniq[t-1] {
+		// a unique index: no two hashes of the table carry the same value
+		for kk := range d.cur[t-1] {
+			if kk != k-1 && d.cur[t-1][kk] == v {
+				v = 0
+			}
+		}
+	}
+	d.cur[t-1][k-1] = v
 	key := d.tabs[t-1] + ":" + d.keys[k-1]
 	var r interface{}
 	switch {
 	case v > 0:
-		r = d.wd.apply("hset", key, "f", fmt.Sprintf("v%d", v))
+		r = d.wd.apply("hset", key, "f", d.valStr(t, v))
 		if d.rng.Intn(3) == 0 {
 			d.wd.apply("hset", key, "g", "x") // a field that is not indexed
 		}
@@ -144,8 +175,12 @@ func (d *idxDrv) write(t, k, v int) {
 	d.nW++
 }
 
-func (d *idxDrv) query(t, v int) {
-	val := []byte(fmt.Sprintf("v%d", v))
+// query: one search with the condition lo <(=) f <(=) hi (positions of the value pool, 0 = unbounded)
+func (d *idxDrv) query(t, lo int, il bool, hi int, ih bool) {
+	if d.intv[t-1] && !d.extremes && ((lo == idxNV && !il) || (hi == 1 && !ih)) {
+		// "> largest int64" / "< smallest int64" (fixed finding C12-index-int-bound-wraps) can be left out
+		return
+	}
 	res := []int{}
 	errs := ""
 	func() {
@@ -155,7 +190,13 @@ func (d *idxDrv) query(t, v int) {
 				d.wd.panics++
 			}
 		}()
-		cond := &rockredis.IndexCondition{StartKey: val, IncludeStart: true, EndKey: val, IncludeEnd: true, Limit: 1000}
+		cond := &rockredis.IndexCondition{IncludeStart: il, IncludeEnd: ih, Limit: 1000}
+		if lo > 0 {
+			cond.StartKey = []byte(d.valStr(t, lo))
+		}
+		if hi > 0 {
+			cond.EndKey = []byte(d.valStr(t, hi))
+		}
 		_, _, rs, err := d.wd.store.HsetIndexSearch([]byte(d.tabs[t-1]), []byte("f"), cond, false)
 		if err != nil {
 			errs = err.Error()
@@ -172,17 +213,48 @@ func (d *idxDrv) query(t, v int) {
 			res = append(res, p)
 		}
 	}()
-	d.tw.Emit(trace.M{"ev": "q", "t": t, "v": v, "res": res, "err": errs})
+	d.tw.Emit(trace.M{"ev": "q", "t": t, "lo": lo, "il": il, "hi": hi, "ih": ih, "res": res, "err": errs})
 	d.nQ++
+	if lo != hi || !il || !ih {
+		d.nRange++
+	}
 }
 
+// every comparison operator with every stored value as the bound, plus a few range pairs
 func (d *idxDrv) queryAll() {
 	for t := 1; t <= idxNT; t++ {
-		if d.ready[t-1] {
-			for v := 1; v <= idxNV; v++ {
-				d.query(t, v)
-			}
+		if !d.ready[t-1] {
+			continue
 		}
+		for v := 1; v <= idxNV; v++ {
+			d.query(t, v, true, v, true)  // =
+			d.query(t, 0, true, v, false) // <
+			d.query(t, 0, true, v, true)  // <=
+			d.query(t, v, false, 0, true) // >
+			d.query(t, v, true, 0, true)  // >=
+		}
+		for i := 0; i < 4; i++ {
+			lo, hi := 1+d.rng.Intn(idxNV), 1+d.rng.Intn(idxNV)
+			d.query(t, lo, d.rng.Intn(2) == 0, hi, d.rng.Intn(2) == 0)
+		}
+	}
+}
+
+func (d *idxDrv) queryOne(t int) {
+	v := 1 + d.rng.Intn(idxNV)
+	switch d.rng.Intn(6) {
+	case 0:
+		d.query(t, v, true, v, true)
+	case 1:
+		d.query(t, 0, true, v, false)
+	case 2:
+		d.query(t, 0, true, v, true)
+	case 3:
+		d.query(t, v, false, 0, true)
+	case 4:
+		d.query(t, v, true, 0, true)
+	default:
+		d.query(t, v, d.rng.Intn(2) == 0, 1+d.rng.Intn(idxNV), d.rng.Intn(2) == 0)
 	}
 }
 
@@ -195,6 +267,7 @@ func idxsim(args []string) error {
 	nseg := fs.Int("segments", 6, "number of worlds")
 	slen := fs.Int("len", 40, "steps per world")
 	policy := fs.String("policy", "local", "expiry policy: local | compact")
+	extremes := fs.Bool("extremes", true, "also '> largest int64' and '< smallest int64' (fixed finding C12-index-int-bound-wraps)")
 	fs.Parse(args)
 	pol := common.LocalDeletion
 	if *policy == "compact" {
@@ -212,7 +285,7 @@ func idxsim(args []string) error {
 			return err
 		}
 	}
-	d := &idxDrv{wd: wd, rng: rng}
+	d := &idxDrv{wd: wd, rng: rng, extremes: *extremes}
 	pool := scnPools[0].names // plain, prefix-free names (usable on both engines)
 	for seg := 0; seg < *nseg; seg++ {
 		if err := wd.clean(); err != nil {
@@ -227,7 +300,11 @@ func idxsim(args []string) error {
 			d.kpos[n] = i + 1
 		}
 		d.ready, d.has = [idxNT]bool{}, [idxNT]bool{}
-		d.tw.Emit(trace.M{"ev": "reset", "tabs": d.tabs[:]})
+		d.cur = [idxNT][idxNK]int{}
+		for t := 0; t < idxNT; t++ {
+			d.intv[t], d.uniq[t] = rng.Intn(2) == 0, rng.Intn(2) == 0
+		}
+		d.tw.Emit(trace.M{"ev": "reset", "tabs": d.tabs[:], "int": d.intv[:], "unique": d.uniq[:]})
 		// data first, in every table, so that the first index is built on existing data
 		for t := 1; t <= idxNT; t++ {
 			for k := 1; k <= idxNK; k++ {
@@ -257,7 +334,7 @@ func idxsim(args []string) error {
 			default:
 				t := 1 + rng.Intn(idxNT)
 				if d.ready[t-1] {
-					d.query(t, 1+rng.Intn(idxNV))
+					d.queryOne(t)
 				}
 			}
 		}
@@ -266,7 +343,7 @@ func idxsim(args []string) error {
 	for _, tw := range tws {
 		tw.Close()
 	}
-	summary(trace.M{"driver": "idxsim", "eng": *et, "policy": *policy, "segments": *nseg, "writes": d.nW, "searches": d.nQ,
+	summary(trace.M{"driver": "idxsim", "eng": *et, "policy": *policy, "segments": *nseg, "writes": d.nW, "searches": d.nQ, "range_searches": d.nRange,
 		"ddl": d.nDDL, "builds_on_existing_data": d.nBuildExisting, "errors": d.nErr, "panics": wd.panics})
 	return nil
 }
